@@ -187,6 +187,27 @@ func c04Variants(h *hctx) []timedCase {
 			time.Sleep(gap / 2)
 			r.put(4, false)
 		}),
+		mk("cfgswitch", 0, 0, 0, cd, func(r *bufRun, gap time.Duration) {
+			// the cooldown is reconfigured to 0 while a window started under the old cooldown is still pending, and the
+			// final commit lands inside that same window
+			r.newConsumer()
+			r.put(3, false)
+			commitN(r, 0, 1)
+			time.Sleep(gap / 4)
+			_ = r.b.SetCleanerConfig(CleanerConfig{Cleaner: DefaultCleaner, Cooldown: 0})
+			commitN(r, 0, 1)
+		}),
+		mk("fixedeq", 1, 3, 3, cd, func(r *bufRun, gap time.Duration) {
+			// boundary configuration target == max, stalled consumer
+			r.newConsumer()
+			r.put(2, false)
+			time.Sleep(gap / 2)
+			r.put(5, false)
+		}),
+		mk("fixedeqnocons", 1, 2, 2, 0, func(r *bufRun, gap time.Duration) {
+			r.put(2, false)
+			r.put(3, false)
+		}),
 		mk("nocooldown", 0, 0, 0, 0, func(r *bufRun, gap time.Duration) {
 			r.newConsumer()
 			r.put(3, false)
